@@ -13,8 +13,11 @@ import glob
 import os
 import re
 import shutil
+import signal
 import socket
 import ssl
+import subprocess
+import sys
 import threading
 import time
 
@@ -71,6 +74,13 @@ def scan_globals():
                     if not used <= {"config", "self", "eval"}:
                         problems.append(f"{rel}: {name} initialised from {sorted(used)} (expected configuration only)")
     return found, problems
+
+
+def children(pid):
+    try:
+        return open("/proc/%d/task/%d/children" % (pid, pid)).read().split()
+    except OSError:
+        return []
 
 
 def ask(port, req, tls, cctx, timeout=30):
@@ -132,11 +142,16 @@ def run(ctx):
                                                 "pygopherd|servername": "localhost",
                                                 "pygopherd|enable_tls": "yes", "pygopherd|tls_certfile": os.path.join(pyg.REPO, "testdata", "demo.crt"),
                                                 "pygopherd|tls_keyfile": os.path.join(pyg.REPO, "testdata", "demo.key")})
-            sctx = initialization.init_ssl_context(cfg)
-            srv = initialization.get_server(cfg, context=sctx)
-            port = srv.socket.getsockname()[1]
-            th = threading.Thread(target=srv.serve_forever, kwargs={"poll_interval": 0.05}, daemon=True)
-            th.start()
+            cfg.set("logger", "logmethod", "none")
+            confpath = os.path.join(tree.tmp, "server-%s.conf" % stype)
+            with open(confpath, "w") as fh:
+                cfg.write(fh)
+            proc = subprocess.Popen([sys.executable, "-B", os.path.join(os.path.dirname(os.path.dirname(os.path.abspath(__file__))), "realserver.py"), pyg.REPO, confpath],
+                                    stdout=subprocess.PIPE, stderr=subprocess.PIPE, start_new_session=True)
+            line = proc.stdout.readline()
+            if not line.strip().isdigit():
+                raise RuntimeError("real server did not start: " + proc.stderr.read().decode(errors="replace")[-400:])
+            port = int(line)
             try:
                 def mask(b):
                     b = re.sub(rb"(Last-Modified|Mod-Date):[^\r\n]*", b"T", b)
@@ -186,7 +201,7 @@ def run(ctx):
                     while time.time() < deadline:
                         ask(port, b"/nope\r\n", 0, cctx)       # each accept loop iteration reaps
                         time.sleep(0.15)
-                        left = len(getattr(srv, "active_children", None) or ())
+                        left = len(children(proc.pid))
                         if left <= 1:
                             break
                     res.extra["forking_children_left"] = left
@@ -195,10 +210,17 @@ def run(ctx):
                                       replay={"server": stype, "burst": 0})
                 else:
                     time.sleep(0.3)
-                    res.extra["threads_alive"] = threading.active_count()
+                    res.extra["server_threads_alive"] = int(re.search(r"Threads:\s*(\d+)", open("/proc/%d/status" % proc.pid).read()).group(1))
+                if proc.poll() is not None:
+                    res.violation("C14:server-died:" + stype, "the server process exited", {"server": stype}, observed=proc.returncode, required="still serving", replay={"server": stype, "burst": 0})
             finally:
-                srv.shutdown()
-                srv.server_close()
+                try:
+                    os.killpg(proc.pid, signal.SIGKILL)
+                except ProcessLookupError:
+                    pass
+                proc.wait(10)
+                proc.stdout.close()
+                proc.stderr.close()
         res.sample({"server": "ThreadingTCPServer", "burst": 48, "forms": len(forms)})
         res.sample({"shared_state": sorted(f"{a}:{b}" for a, b in found)})
     finally:
